@@ -1,4 +1,5 @@
 #include "fplan.h"
+#include <cerrno>
 
 #include <QJsonDocument>
 
@@ -240,8 +241,57 @@ void gen_advance(Rng &r, std::vector<FOp> &ops, bool daily_bias)
 
 } // namespace
 
+// C07W: slice of the C07 check - the device fills up in the middle of a record. Large records (written
+// straight through QFile's buffer), a size limit a few records wide, no retention, no compression; in one
+// operation the write of the record transfers half of its bytes and the continuation fails once (ENOSPC/EIO/
+// EDQUOT). Judged on sizes only (engine.cpp, run_size_only).
+static FPlan gen_c07w(const std::string &tier, uint64_t seed)
+{
+    FPlan p;
+    p.prop = "C07W";
+    p.tier = tier;
+    p.seed = seed;
+    Rng r(sim::mix(seed, 0xc07c07c07ull));
+    static const char *bases[] = { "app.log", "app", "my.app.log" };
+    p.base = pick(r, bases);
+    p.L = (int)r.range(40000, tier == "thorough" ? 300000 : 120000);
+    p.N = r.chance(1, 3) ? 0 : -1;
+    p.options = 0;
+    p.via_pipeline = r.chance(1, 2);
+    p.fault_seed = r.next() | 1;
+    int nops = (int)r.range(4, 12);
+    for (int i = 0; i < nops; i++) {
+        if (i > 1 && r.chance(1, 10)) {
+            FOp o;
+            o.k = "restart";
+            p.ops.push_back(o);
+            continue;
+        }
+        FOp o;
+        o.k = "write";
+        o.n = (int)r.range(16400, p.L / 2);
+        o.cls = r.chance(1, 2) ? 0 : 3;
+        p.ops.push_back(o);
+    }
+    // the failure sits in one of the later writes
+    std::vector<int> w;
+    for (size_t i = 1; i < p.ops.size(); i++)
+        if (p.ops[i].k == "write")
+            w.push_back((int)i);
+    if (!w.empty()) {
+        static const int errs[] = { ENOSPC, EIO, EDQUOT };
+        FOp &o = p.ops[w[r.below(w.size())]];
+        o.fault_call = sim::FS_WRITE;
+        o.fault_nth = 0;
+        o.fault_errno = pick(r, errs) | sim::FS_ERR_SHORT_FIRST;
+    }
+    return p;
+}
+
 FPlan generate(const std::string &prop, const std::string &tier, uint64_t seed)
 {
+    if (prop == "C07W")
+        return gen_c07w(tier, seed);
     FPlan p;
     p.prop = prop;
     p.tier = tier;
